@@ -33,7 +33,7 @@ Definition run_ulist (c : string * list hv * other hv) : J :=
 
 (* dictattr family *)
 Definition cls_name (c : cls) : string :=
-  match c with CPlain => "dict" | CDictattr => "dictattr" | CDict => "Dict" | CUserA => "UA" | CUserD => "UD" end.
+  match c with CPlain => "dict" | CDictattr => "dictattr" | CDict => "Dict" | CUserA => "UA" | CUserD => "UD" | CPoint => "PT" | CKwInit => "KO" end.
 Definition itemsJ (m : amap Z) : J := JL (map (fun kv => JL [JS (fst kv); JZ (snd kv)]) m).
 Definition dresJ (r : dres Z) : J :=
   match r with
@@ -49,18 +49,21 @@ Inductive dop :=
 | OpRelabel (a : relabel_arg) (kw : list (string * string))
 | OpKeys | OpKeysSub (ks : other string) | OpKeysAnd (ks : other string) | OpKeysAdd (ks : other string).
 
+(* values that are not items of the operand: the defaults a re-run constructor injects, a whole mapping landing in x *)
+Definition init_z (p : string) : Z := if String.eqb p "x" then -1000 else if String.eqb p "y" then -1001 else -1002.
+Definition whole_z (m : amap Z) : Z := -2000.
 Definition run_dict (x : cls * amap Z * dop) : J :=
   let '(c, d, op) := x in
   let r :=
     match op with
     | OpSub ks => d_sub c d ks
-    | OpAnd ks => d_and c d ks
-    | OpGetList ks => d_getlist c d ks
+    | OpAnd ks => d_and_py init_z c d ks
+    | OpGetList ks => d_getlist_py init_z whole_z c d ks
     | OpGetTuple ks => d_gettuple d ks
     | OpAttr k => d_attr d k
     | OpAdd oc o => d_add c d oc o
-    | OpOr oc o => d_or c d o
-    | OpRelabel a kw => d_relabel c d a kw
+    | OpOr oc o => d_or_py init_z whole_z c d o
+    | OpRelabel a kw => d_relabel_py init_z c d a kw
     | OpKeys => d_keys d
     | OpKeysSub ks => DKeys (ul_sub String.eqb (akeys d) ks)
     | OpKeysAnd ks => DKeys (ul_and String.eqb (akeys d) ks)
@@ -106,3 +109,14 @@ Definition run_call (x : cls * amap Z * list (string * citem)) : J :=
 Definition run_call_one (x : cls * amap Z * list (string * citem)) : J :=
   let '(c, base, kw) := x in
   JL [JL [run_call1 c base kw]; itemsJ base].
+
+(* Dict + other on nested mappings: [result; d afterwards; other afterwards] *)
+Fixpoint trJ (t : tr) : J :=
+  match t with
+  | TLeaf z => JZ z
+  | TNode c kids => JL [JS (cls_name c); JL ((fix go (kids : list (string * tr)) : list J :=
+                                               match kids with [] => [] | (k, t') :: r => JL [JS k; trJ t'] :: go r end) kids)]
+  end.
+Definition run_tree_add (x : tr * tr) : J :=
+  let '(d, o) := x in
+  JL [match tree_add d o with TOk t => trJ t | TErr e => JErr e end; trJ d; trJ o].
